@@ -231,7 +231,35 @@ def minmax_seq(ex, st, v, node, is_min):
 
 
 def minmax_key(ex, st, args, kwargs, node, is_min):
-    raise _U("min/max with key", node)
+    """max(seq, key=f) / min(seq, key=f) over a symbolic sequence: the result is an element seq[w] whose key is
+    extremal (python returns the first such element; only extremality and membership are modelled)."""
+    if len(args) != 1:
+        raise _U("min/max with key and several arguments", node)
+    v = args[0]
+    if isinstance(v, GenV):
+        v = v.seq
+    if not isinstance(v, ty.SeqV):
+        raise _U(f"min/max with key of {v!r}", node)
+    key = kwargs["key"]
+    res = []
+    for taken, s2 in ex.branch(st, v.len > 0, f"nonempty@L{getattr(node, 'lineno', 0)}"):
+        if not taken:
+            res.append(_raise("ValueError", s2, node))
+            continue
+        i = z3.Int(ty.fresh_name("ki"))
+        w = z3.Int(ty.fresh_name("karg"))
+        ko = ex.call_value(key, [v.at(i)], {}, s2.fork(), node)
+        kw = ex.call_value(key, [v.at(w)], {}, s2.fork(), node)
+        if len(ko) != 1 or ko[0].kind != "val" or len(kw) != 1 or kw[0].kind != "val":
+            raise _U("key function forks or raises", node)
+        ki, kwv = ty.to_z3num(ko[0].val), ty.to_z3num(kw[0].val)
+        s2.assume(z3.And(w >= 0, w < v.len))
+        s2.assume(z3.ForAll([i], z3.Implies(z3.And(i >= 0, i < v.len), (kwv <= ki) if is_min else (kwv >= ki)),
+                            patterns=[z3.Select(v.arrs[-1], i)]))
+        r = v.at(w)
+        ex.assume_wf(s2, v.elem, r)
+        res.extend(_out(r, s2))
+    return res
 
 
 def sorted_(ex, st, args, kwargs, node):
